@@ -159,7 +159,11 @@ class BasicVisitor(NodeVisitor):
         return node.full_text[node.start : node.end]
 
     def visit_exp(self, _, visited_children):
-        not_keyword, _, exp, _ = visited_children
+        exp, _ = visited_children
+        return exp
+
+    def visit_num_not_exp(self, _, visited_children) -> AbstractBasicExpression:
+        not_keyword, _, exp = visited_children
         if isinstance(not_keyword, BasicOperator):
             return BasicOpExp(not_keyword.operator, exp)
         return exp
@@ -238,6 +242,9 @@ class BasicVisitor(NodeVisitor):
         return visited_children[0]
 
     def visit_bool_exp(self, _, visited_children) -> AbstractBasicExpression:
+        return visited_children[0]
+
+    def visit_bool_not_exp(self, _, visited_children) -> AbstractBasicExpression:
         not_keyword, _, exp = visited_children
         return (
             BasicBooleanOpExp(not_keyword.operator, exp)
